@@ -20,8 +20,10 @@ func init() {
 // C17: authorisation on every route.  A random permission relation (client id x topic-or-filter x
 // read/write, an explicit table) is installed through Opts.ACL; 4 clients run histories of connects
 // (v3/v4/v5, clean or persistent, wills on allowed / denied / $SYS / wildcard topics, delayed wills),
-// DISCONNECTs, network drops, publishes (QoS 0-2, retain), subscribes (allowed / denied / invalid
-// filters, wildcards covering denied topics), inline publishes and will ticks.  The first payload byte
+// DISCONNECTs, network drops, takeovers of a live connection, session expiry, publishes (QoS 0-2 with
+// explicit PUBREL and retransmissions, retain, topic aliases incl. re-binding and alias-only packets),
+// subscribes (allowed / denied / invalid filters, wildcards covering denied topics, No-Local, shared
+// subscriptions whose members have different read permissions), inline publishes and will ticks.  The first payload byte
 // names the sender, so the Coq monitors can judge every delivery and every retained message against
 // the table.  Per step: operation, what each connection received, retained store, topic index,
 // client subscription maps.
@@ -38,6 +40,8 @@ type auRun struct {
 	ids     map[int]string
 	closed  map[int]bool
 	pid     map[string]uint16
+	pend    map[string][]uint16 // QoS 2 publishes of the client that got a PUBREC and no PUBREL yet (harness view)
+	lastQ2  map[string]string   // topic of the last pending QoS 2 publish (for retransmission)
 	seq     byte
 	steps   sx.L
 }
@@ -81,9 +85,8 @@ func (r *auRun) observe(op sx.V) {
 				evs = append(evs, sx.L{sx.S(id), sx.L{sx.N(2), sx.N(4), sx.N(uint64(p.PacketID)), sx.N(uint64(p.ReasonCode))}})
 			case packets.Pubrec:
 				evs = append(evs, sx.L{sx.S(id), sx.L{sx.N(2), sx.N(5), sx.N(uint64(p.PacketID)), sx.N(uint64(p.ReasonCode))}})
-				if p.ReasonCode < 0x80 {
-					acks = append(acks, ackJob{r.b.Conns[o.Conn], broker.AckPk(packets.Pubrel, p.PacketID, 0)})
-				}
+			case packets.Pubcomp:
+				evs = append(evs, sx.L{sx.S(id), sx.L{sx.N(2), sx.N(7), sx.N(uint64(p.PacketID)), sx.N(uint64(p.ReasonCode))}})
 			case packets.Pubrel:
 				acks = append(acks, ackJob{r.b.Conns[o.Conn], broker.AckPk(packets.Pubcomp, p.PacketID, 0)})
 			case packets.Suback:
@@ -197,30 +200,74 @@ func (r *auRun) netClose(id string) {
 	r.observe(sx.L{sx.N(2), sx.S(id)})
 }
 
-func (r *auRun) publish(id, topic string, qos byte, retain bool) {
+func (r *auRun) nextPid(id string) uint16 {
+	if r.pid[id] == 0 {
+		r.pid[id] = 1000 // the client's own identifiers stay clear of those the broker allocates towards it
+	}
+	r.pid[id]++
+	return r.pid[id]
+}
+
+// publish sends a PUBLISH; alias > 0 adds the Topic Alias property (topic "" = alias-only packet);
+// usePid != 0 retransmits with that identifier.
+func (r *auRun) publish(id, topic string, qos byte, retain bool, alias uint16, usePid uint16) {
 	c := r.conns[id]
 	pid := uint16(0)
 	if qos > 0 {
-		r.pid[id]++
-		pid = r.pid[id]
+		pid = usePid
+		if pid == 0 {
+			pid = r.nextPid(id)
+		}
 	}
 	payload := r.payload(id)
-	if r.b.SendPacket(c, broker.PublishPk(topic, payload, qos, retain, pid)) != nil {
+	pk := broker.PublishPk(topic, payload, qos, retain, pid)
+	if alias > 0 {
+		pk.Properties.TopicAlias = alias
+		pk.Properties.TopicAliasFlag = true
+	}
+	if usePid != 0 {
+		pk.FixedHeader.Dup = true
+	}
+	if r.b.SendPacket(c, pk) != nil {
 		return
 	}
-	r.observe(sx.L{sx.N(3), sx.S(id), sx.S(topic), sx.B(payload), sx.N(uint64(qos)), sx.Bool(retain), sx.N(uint64(pid))})
+	n := len(r.steps)
+	r.observe(sx.L{sx.N(3), sx.S(id), sx.S(topic), sx.B(payload), sx.N(uint64(qos)), sx.Bool(retain), sx.N(uint64(pid)), sx.N(uint64(alias))})
+	if qos == 2 && usePid == 0 && len(r.steps) > n && r.conns[id] == c {
+		r.pend[id] = append(r.pend[id], pid)
+		r.lastQ2[id] = topic
+	}
+}
+
+func (r *auRun) pubrel(id string, pid uint16) {
+	c := r.conns[id]
+	if r.b.SendPacket(c, broker.AckPk(packets.Pubrel, pid, 0)) != nil {
+		return
+	}
+	r.observe(sx.L{sx.N(8), sx.S(id), sx.N(uint64(pid))})
+	keep := r.pend[id][:0]
+	for _, p := range r.pend[id] {
+		if p != pid {
+			keep = append(keep, p)
+		}
+	}
+	r.pend[id] = keep
+}
+
+func (r *auRun) expire() {
+	r.b.Tick("clients", time.Now().Unix()+(1<<33))
+	r.observe(sx.L{sx.N(9)})
 }
 
 func (r *auRun) subscribe(id string, subs ...packets.Subscription) {
 	c := r.conns[id]
-	r.pid[id]++
-	pid := r.pid[id]
+	pid := r.nextPid(id)
 	if r.b.SendPacket(c, broker.SubscribePk(pid, subs...)) != nil {
 		return
 	}
 	fs := sx.L{}
 	for _, s := range subs {
-		fs = append(fs, sx.L{sx.S(s.Filter), sx.N(uint64(s.Qos))})
+		fs = append(fs, sx.L{sx.S(s.Filter), sx.N(uint64(s.Qos)), sx.Bool(s.NoLocal)})
 	}
 	r.observe(sx.L{sx.N(4), sx.S(id), sx.N(uint64(pid)), fs})
 }
@@ -238,7 +285,8 @@ func (r *auRun) tick() {
 }
 
 var (
-	auClients    = []string{"p0", "p1", "s0", "s1"}
+	auClients    = []string{"p0", "p1", "s0", "s1", "g0", "g1"}
+	auShared     = []string{"$share/g/b/x", "$share/g/b/#", "$share/h/b/x", "$share/g/d/#"}
 	auTopics     = []string{"a/x", "a/y", "b/x", "d/x", "a/x", "b/x"}
 	auAllTopics  = []string{"a/x", "a/y", "b/x", "d/x", "$SYS/w"}
 	auFilters    = []string{"a/#", "a/+", "b/x", "#", "d/#", "+/x", "d/x", "a/x"}
@@ -250,6 +298,7 @@ func auNewRun(rng *rand.Rand, obscure bool, density int) (*auRun, sx.V, func()) 
 	aclsx := sx.L{}
 	strs := append(append([]string{}, auAllTopics...), auFilters...)
 	strs = append(strs, auBadFilters...)
+	strs = append(strs, auShared...)
 	seen := map[string]bool{}
 	for _, c := range auClients {
 		for _, t := range strs {
@@ -258,7 +307,11 @@ func auNewRun(rng *rand.Rand, obscure bool, density int) (*auRun, sx.V, func()) 
 			}
 			seen[c+"\x00"+t] = true
 			for _, w := range []bool{false, true} {
-				if rng.Intn(10) < density {
+				d := density
+				if t == "" && w && d < 7 {
+					d = 7 // alias-only packets are authorised against the empty topic name: let them through often
+				}
+				if rng.Intn(10) < d {
 					tbl[auACLKey{c, t, w}] = true
 					aclsx = append(aclsx, sx.L{sx.S(c), sx.S(t), sx.Bool(w)})
 				}
@@ -270,7 +323,7 @@ func auNewRun(rng *rand.Rand, obscure bool, density int) (*auRun, sx.V, func()) 
 	caps.Compatibilities.ObscureNotAuthorized = obscure
 	b := broker.New(broker.Opts{Caps: caps, InlineClient: true, Auth: broker.AllowAuth, ACL: acl})
 	r := &auRun{b: b, clients: auClients, conns: map[string]*broker.Conn{}, ids: map[int]string{}, closed: map[int]bool{},
-		pid: map[string]uint16{}}
+		pid: map[string]uint16{}, pend: map[string][]uint16{}, lastQ2: map[string]string{}}
 	csx := sx.L{}
 	for _, c := range auClients {
 		csx = append(csx, sx.S(c))
@@ -280,7 +333,7 @@ func auNewRun(rng *rand.Rand, obscure bool, density int) (*auRun, sx.V, func()) 
 }
 
 func auRandWill(rng *rand.Rand, r *auRun, id string, ver byte) *auWill {
-	topics := []string{"a/x", "a/y", "b/x", "d/x", "$SYS/w", "a/+/#", "d/x", "a/x", "b/#"}
+	topics := []string{"a/x", "a/y", "d/x", "$SYS/w", "a/+/#", "d/x", "a/x", "a/#"} // not below b/: wills stay clear of the share groups
 	w := &auWill{topic: topics[rng.Intn(len(topics))], payload: r.payload(id), qos: byte(rng.Intn(2)), retain: rng.Intn(2) == 0}
 	if ver == 5 && rng.Intn(3) == 0 {
 		w.delay = 5
@@ -299,56 +352,86 @@ func engAuth(seed int64, tier string, _ []string, out *sx.Out) {
 		obscure := rng.Intn(4) == 0
 		r, header, done := auNewRun(rng, obscure, 4+rng.Intn(5))
 		ops := 20 + rng.Intn(20)
+		newConn := func(id string) {
+			ver := vers[rng.Intn(len(vers))]
+			pubr := id[0] == 'p'
+			var w *auWill
+			if pubr && rng.Intn(3) > 0 {
+				w = auRandWill(rng, r, id, ver)
+			}
+			clean := rng.Intn(2) == 0
+			if pubr && w != nil && w.delay > 0 {
+				clean = rng.Intn(3) == 0
+			}
+			if id[0] == 'g' {
+				clean = true // share-group members never keep an offline session (the member choice stays observable)
+			}
+			r.connect(id, ver, clean, w)
+		}
 		for i := 0; i < ops; i++ {
 			id := auClients[rng.Intn(len(auClients))]
 			pubr := id[0] == 'p'
+			grp := id[0] == 'g'
 			if r.conns[id] == nil {
-				ver := vers[rng.Intn(len(vers))]
-				var w *auWill
-				if pubr && rng.Intn(3) > 0 {
-					w = auRandWill(rng, r, id, ver)
-				}
-				clean := rng.Intn(2) == 0
-				if pubr && w != nil && w.delay > 0 {
-					clean = rng.Intn(3) == 0
-				}
-				r.connect(id, ver, clean, w)
+				newConn(id)
 				continue
 			}
-			switch k := rng.Intn(20); {
+			v5 := r.conns[id].Version == 5
+			switch k := rng.Intn(24); {
 			case k < 2:
 				r.disconnect(id)
-			case k < 5:
-				if r.conns[id].Version == 5 && rng.Intn(3) == 0 {
+			case k < 4:
+				if v5 && rng.Intn(3) == 0 {
 					r.disconnectWill(id)
 				} else {
 					r.netClose(id)
 				}
-			case k < 7:
-				r.tick()
+			case k < 6:
+				newConn(id) // takeover of the live connection
 			case k < 8:
+				r.tick()
+			case k < 9:
+				r.expire()
+			case k < 10:
 				r.inline(auAllTopics[rng.Intn(len(auAllTopics))], rng.Intn(2) == 0)
-			case k < 14 && !pubr:
+			case k < 16 && !pubr:
 				n := 1 + rng.Intn(2)
 				subs := []packets.Subscription{}
 				for j := 0; j < n; j++ {
 					f := auFilters[rng.Intn(len(auFilters))]
+					if grp && rng.Intn(3) > 0 {
+						f = auShared[rng.Intn(len(auShared))]
+					}
 					if rng.Intn(8) == 0 {
 						f = auBadFilters[rng.Intn(len(auBadFilters))]
 					}
-					subs = append(subs, packets.Subscription{Filter: f, Qos: byte(rng.Intn(2))})
+					subs = append(subs, packets.Subscription{Filter: f, Qos: byte(rng.Intn(3)), NoLocal: v5 && rng.Intn(6) == 0})
 				}
 				r.subscribe(id, subs...)
+			case k < 18 && len(r.pend[id]) > 0:
+				switch rng.Intn(4) {
+				case 0: // retransmit the unreleased QoS 2 publish
+					r.publish(id, r.lastQ2[id], 2, rng.Intn(2) == 0, 0, r.pend[id][len(r.pend[id])-1])
+				case 1: // release an identifier the broker does not know
+					r.pubrel(id, 999)
+				default:
+					r.pubrel(id, r.pend[id][0])
+				}
 			default:
 				topic := auTopics[rng.Intn(len(auTopics))]
 				if rng.Intn(12) == 0 {
 					topic = []string{"$SYS/w", "$SYS/w", "a/+"}[rng.Intn(3)]
 				}
-				qos := byte(rng.Intn(3))
-				if !pubr && qos == 2 {
-					qos = 1
+				alias := uint16(0)
+				if v5 && rng.Intn(3) == 0 {
+					alias = uint16(1 + rng.Intn(2))
+					if rng.Intn(2) == 0 {
+						topic = "" // alias-only packet: bound earlier (to an allowed topic) or never
+					} else if rng.Intn(2) == 0 {
+						topic = "d/x" // try to (re)bind the alias to a topic that is often denied
+					}
 				}
-				r.publish(id, topic, qos, rng.Intn(2) == 0)
+				r.publish(id, topic, byte(rng.Intn(3)), rng.Intn(2) == 0, alias, 0)
 			}
 		}
 		r.tick()
@@ -358,7 +441,7 @@ func engAuth(seed int64, tier string, _ []string, out *sx.Out) {
 				r.connect(id, vers[rng.Intn(len(vers))], false, nil)
 			}
 			if r.conns[id] != nil {
-				r.subscribe(id, packets.Subscription{Filter: "#", Qos: 1})
+				r.subscribe(id, packets.Subscription{Filter: "#", Qos: 2})
 			}
 			if r.conns[id] != nil {
 				r.subscribe(id, packets.Subscription{Filter: "a/#", Qos: 0}, packets.Subscription{Filter: "d/x", Qos: 1})
@@ -394,7 +477,7 @@ func engSubInvalid(seed int64, tier string, _ []string, out *sx.Out) {
 			continue
 		}
 		// a retained message that a filter "like" the invalid one would match
-		r.publish("p0", "a/x", 1, true)
+		r.publish("p0", "a/x", 1, true, 0, 0)
 		for i := 0; i < 6; i++ {
 			if r.conns["s0"] == nil {
 				break
@@ -413,7 +496,7 @@ func engSubInvalid(seed int64, tier string, _ []string, out *sx.Out) {
 			}
 			r.subscribe("s0", subs...)
 			if r.conns["p0"] != nil {
-				r.publish("p0", auTopics[rng.Intn(len(auTopics))], byte(rng.Intn(2)), rng.Intn(3) == 0)
+				r.publish("p0", auTopics[rng.Intn(len(auTopics))], byte(rng.Intn(2)), rng.Intn(3) == 0, 0, 0)
 			}
 		}
 		out.Case(append(header.(sx.L), r.steps))
